@@ -513,6 +513,9 @@ def after_error_history(ctx, n):
     simp = simplify_chained_calls()
     gave_up = ["Select(EventDataset(), lambda e: (e.x, e.y)[5])", "Select(Select(EventDataset(), lambda e: (e.x, e.y)), lambda t: t[2])", "Select(EventDataset(), lambda e: [e.x][3] + 1)"]
     for i in range(n):
+        if i % 50 == 49 and ctx.out_of_time():
+            ctx.count("after-error-history:stopped-by-time-budget")
+            break
         rnd = random.Random(ctx.seed * 7919 + i * 13 + 5)
         if i % 4 == 0:
             try:
